@@ -587,17 +587,23 @@ func (s *cliScen) duelRound() {
 		op, ids := s.startKnown()
 		ds = append(ds, duel{op, ids})
 	}
+	// between the two actions of a duel: nothing, or a few yields (the second action then meets the
+	// consequences of the first at another stage)
+	gap := func() { cyield(pick(g, []int{0, 0, 0, 1, 3, 8, 20, 50})) }
 	for _, d := range ds {
 		switch x := g.intn(10); {
 		case x < 4:
 			s.endCtx(d.op)
+			gap()
 			s.feedReplies(d.ids)
 		case x < 8:
 			s.feedReplies(d.ids)
+			gap()
 			s.endCtx(d.op)
 		case x < 9:
 			s.endCtx(d.op)
 			s.feedReplies(d.ids)
+			gap()
 			s.feedReplies(d.ids)
 		default:
 			s.feedReplies(d.ids)
